@@ -68,9 +68,10 @@ func (s *sim) check(a Action) {
 				continue
 			}
 			t.exactChecked = true
-			want := bytes.ReplaceAll([]byte(t.text), []byte("\n"), []byte("\r\n"))
-			want = bytes.ReplaceAll(want, []byte("\r\r\n"), []byte("\r\n"))
-			if !bytes.Contains(out, want) && !bytes.Contains(out, []byte(t.text)) {
+			// how the line editor spells a newline is its own business: compare with
+			// carriage returns taken out on both sides
+			want := bytes.ReplaceAll([]byte(t.text), []byte("\r"), nil)
+			if !bytes.Contains(bytes.ReplaceAll(out, []byte("\r"), nil), want) {
 				s.violate("C03", "plain-verbatim-on-terminal", "shell output not written to the terminal byte for byte in one piece",
 					"shell output %q is on the terminal, but not as the contiguous bytes %q (something was changed, reordered or held back)", t.text, string(want))
 				return
@@ -153,7 +154,10 @@ func (s *sim) check(a Action) {
 				"entered %s; the input channel delivered %s", clipList(s.expectIch), clipList(s.got))
 		}
 	} else if len(held) == 0 && !eqStr(s.got, s.expectIch) {
-		if len(s.got) <= len(s.expectIch) && eqStr(s.got, s.expectIch[:len(s.got)]) && s.pendingInsert() {
+		if s.insertOvertaken() {
+			s.violate("C02", "insert-keeps-its-place", "line typed after Ctrl+I is delivered before the inserted text",
+				"entered %s; the input channel delivered %s: everything arrived once and the typed lines are in order, but inserted text arrived after lines that were typed after Ctrl+I (the insert runs in its own goroutine and is not ordered with the line reader)",
+				clipList(s.expectIch), clipList(s.got))
 			return
 		}
 		s.violate("C02", "terminal-input-fifo", "what the operator entered is not what arrives on the input channel",
@@ -161,7 +165,47 @@ func (s *sim) check(a Action) {
 	}
 }
 
-func (s *sim) pendingInsert() bool { return false }
+// insertOvertaken: got is expectIch with nothing lost or duplicated and the
+// typed lines in order; only inserted payloads sit later than they should.
+func (s *sim) insertOvertaken() bool {
+	if len(s.got) != len(s.expectIch) {
+		return false
+	}
+	pl := string(s.payload)
+	var a, b []string
+	na, nb := 0, 0
+	for _, x := range s.expectIch {
+		if x == pl {
+			na++
+		} else {
+			a = append(a, x)
+		}
+	}
+	for _, x := range s.got {
+		if x == pl {
+			nb++
+		} else {
+			b = append(b, x)
+		}
+	}
+	if na != nb || na == 0 || !eqStr(a, b) {
+		return false
+	}
+	// every payload arrives no earlier than its place
+	seenE, seenG := 0, 0
+	for i := range s.got {
+		if s.expectIch[i] == pl {
+			seenE++
+		}
+		if s.got[i] == pl {
+			seenG++
+		}
+		if seenG > seenE {
+			return false
+		}
+	}
+	return true
+}
 
 func (s *sim) finalCheck() {
 	s.check(Action{K: "final"})
